@@ -76,6 +76,7 @@ func init() {
 	intrinsics["(*fmt.wrapError).Error"] = func(in *Interp, fn *ssa.Function, a []Value) Value { return (*a[0].(*Value)).(Struct)[0] }
 	intrinsics["(*fmt.wrapErrors).Unwrap"] = func(in *Interp, fn *ssa.Function, a []Value) Value { return (*a[0].(*Value)).(Struct)[1] }
 	intrinsics["(*fmt.wrapErrors).Error"] = func(in *Interp, fn *ssa.Function, a []Value) Value { return (*a[0].(*Value)).(Struct)[0] }
+	intrinsics["engine:nilctx"] = func(in *Interp, fn *ssa.Function, a []Value) Value { return Iface{} }
 	registerJSON()
 }
 
